@@ -242,6 +242,45 @@ def Sink.stop : Sink → Sink
   | .file f => .file f.stop
   | .stream s st n => .stream s st (if st then n + 1 else n)
 
+/-- what travels through the queue of an enqueued handler -/
+inductive QItem where
+  | msg (c : Call)     -- a `Message` (a `str`: falsy iff its text is empty)
+  | confirm            -- `True`, put by `complete()`
+  | sentinel           -- `None`, put by `stop()`
+  deriving Repr, DecidableEq
+
+/-- one iteration of the worker loop on one item: `none` = the loop (and the thread) ends,
+`some sink` = it goes on with that sink -/
+def workerIter : List WorkerOp → Sink → QItem → Option Sink
+  | [], k, _ => some k
+  | .get :: r, k, it => workerIter r k it
+  | .breakIfNone :: r, k, it =>
+    match it with
+    | .sentinel => none
+    | _ => workerIter r k it
+  | .breakIfFalsy :: r, k, it =>
+    match it with
+    | .sentinel => none
+    | .msg c => if c.2.isEmpty then none else workerIter r k it
+    | .confirm => workerIter r k it
+  | .confirmIfTrue :: r, k, it =>
+    match it with
+    | .confirm => some k
+    | _ => workerIter r k it
+  | .write :: r, k, it =>
+    match it with
+    | .msg c => workerIter r (k.write c) it
+    | _ => workerIter r k it          -- `sink.write(None)` raises, is reported, the loop goes on
+
+/-- the worker thread over the messages in the queue: the sink it leaves and the messages it never
+read (because its loop ended before them) -/
+def workerRun (ops : List WorkerOp) : Sink → List Call → Sink × List Call
+  | k, [] => (k, [])
+  | k, c :: r =>
+    match workerIter ops k (.msg c) with
+    | some k' => workerRun ops k' r
+    | none => (k, r)
+
 structure Handler where
   enqueue : Bool
   owner : Bool              -- `stop()` runs in the process that created the handler
@@ -263,8 +302,11 @@ def runStopOp (st : Handler × Bool) (op : Bool × StopOp) : Handler × Bool :=
     | .putSentinel => ({ h with sentinel := true }, false)
     | .joinWorker =>
       if h.sentinel then
-        -- the worker writes every queued message in FIFO order, meets the sentinel and ends
-        ({ h with sink := h.queue.foldl Sink.write h.sink, queue := [], joined := true }, false)
+        -- the worker (GENERATED loop body) takes the queued messages in FIFO order, then the sentinel
+        let (k, unread) := workerRun Gen.workerOps h.sink h.queue
+        if unread.isEmpty && (workerIter Gen.workerOps k .sentinel).isSome then
+          ({ h with sink := k, queue := [], hung := true }, true)     -- the sentinel does not end the loop
+        else ({ h with sink := k, queue := unread, joined := true }, false)
       else ({ h with hung := true }, true)
     | .closeQueue => (h, false)
     | .sinkStop => ({ h with sink := h.sink.stop }, false)
